@@ -60,7 +60,9 @@ def run_profile(spec, tier, seed, debug, lean_ok, violations, stats):
     rng = random.Random((seed << 1) | (1 if debug else 0))
     cases = spec.corpus(debug) + spec.gen(rng, tier, debug)
     for c in cases:
-        if not c.pre:
+        # cases without their own preamble get the profile's; a case object reused from the other profile's run
+        # (module-level corpus lists) carries that profile's preamble and is re-stamped
+        if not c.pre or c.pre == spec.pre(not debug):
             c.pre = spec.pre(debug)
     impl = E.run_cases(exe, cases, timeout=1800)
     model = E.run_cases(E.model_exe(), cases, timeout=1800)
